@@ -19,9 +19,9 @@ RULE = ('ordered pairs of real runs: gradient, depth, drawdown rate, flow rate p
         'non-trivial = both runs succeeded and the varied parameter changed something; distinct by (base, parameter, values)')
 
 COST_PARAMS = [
-    ('Reservoir Stimulation Capital Cost', [0.5, 2.04, 8, 31.7]), ('Exploration Capital Cost', [0.5, 3, 20]),
+    ('Reservoir Stimulation Capital Cost', [0, 0.5, 2.04, 8, 31.7]), ('Exploration Capital Cost', [0, 0.5, 3, 20]),
     ('Well Drilling and Completion Capital Cost', [1.5, 4, 12]), ('Surface Plant Capital Cost', [5, 25, 120]),
-    ('Field Gathering System Capital Cost', [0.3, 2, 9]), ('Wellfield O&M Cost', [0.1, 0.8, 3]), ('Surface Plant O&M Cost', [0.2, 1.5, 6]),
+    ('Field Gathering System Capital Cost', [0, 0.3, 2, 9]), ('Wellfield O&M Cost', [0, 0.1, 0.8, 3]), ('Surface Plant O&M Cost', [0, 0.2, 1.5, 6]),
     ('Water Cost', [0.0, 0.2, 1]), ('Total Capital Cost', [20, 75, 300]), ('Total O&M Cost', [0.5, 3, 12]),
     ('Reservoir Stimulation Capital Cost Adjustment Factor', [0, 0.5, 1, 3, 10]), ('Exploration Capital Cost Adjustment Factor', [0, 1, 4]),
     ('Well Drilling and Completion Capital Cost Adjustment Factor', [0.2, 1, 2.5, 10]), ('Surface Plant Capital Cost Adjustment Factor', [0.1, 1, 5]),
@@ -29,7 +29,11 @@ COST_PARAMS = [
     ('Surface Plant O&M Cost Adjustment Factor', [0, 1, 7]), ('Water Cost Adjustment Factor', [0, 1, 10]),
     ('One-time Flat License Fees Etc', [0, 2, 15]), ('Annual License Fees Etc', [0, 0.3, 2]), ('Electricity Rate', [0.02, 0.07, 0.3]),
     ('All-in Vertical Drilling Costs', [600, 1846, 4000]),
+    # plant-specific cost inputs (heat pump, absorption chiller, district heating), from the lower bound 0 of their accepted range upwards
+    ('Heat Pump Capital Cost', [0, 0.5, 4, 20]), ('Absorption Chiller Capital Cost', [0, 0.5, 5, 30]), ('Absorption Chiller O&M Cost', [0, 0.1, 1.5]),
+    ('District Heating Piping Cost Rate', [500, 1200, 3000]), ('Peaking Fuel Cost Rate', [0.01, 0.034, 0.1]),
 ]
+PLANT_OF = {'Heat Pump Capital Cost': 6, 'Absorption Chiller Capital Cost': 5, 'Absorption Chiller O&M Cost': 5, 'District Heating Piping Cost Rate': 7, 'Peaking Fuel Cost Rate': 7}
 
 
 def _run(params):
@@ -117,6 +121,9 @@ def gen_pairs(rng, n):
         else:
             name, vals = rng.choice(COST_PARAMS)
             v1, v2 = sorted(rng.sample(vals, 2))
+            if name in PLANT_OF:
+                # a plant-specific cost input: run it on the plant it belongs to
+                base = geo.base_params(econ, 2, PLANT_OF[name], L=rng.choice([10, 30]) if PLANT_OF[name] != 7 else 20, n=1)
             if rng.random() < 0.4:
                 base['Investment Tax Credit Rate'] = rng.choice([0.1, 0.3, 0.5, 0.765])
                 base['Combined Income Tax Rate'] = rng.choice([0.2, 0.42])
